@@ -45,6 +45,7 @@ RULE = ("Enumerated part: files of 0, 1, 16384, 16385, 40000 bytes, the "
         "Distinct: event-log digests among non-trivial runs.")
 RULE += (' Also: retry after an interrupted attempt (stale <name>.tmp), and a transit path that replays / duplicates a genuine record frame.')
 RULE += (' Texts and offered names include sequences that are not in Unicode NFC form.')
+RULE += (' File contents are random bytes in half of the runs and structured otherwise (all NUL, NUL tail or head of any length, short patterns such as CR LF / ^Z / 0xff repeated).')
 LEVEL_TEXT = ("Fault enumeration over cut/corruption points of fixed payloads "
               "plus seeded exploration. Oracle: receive() success => the tree "
               "at the announced destination equals what the sender read, "
@@ -132,6 +133,28 @@ def configs(tier):
     return [{}]
 
 
+def content(tape, size, tag):
+    """File contents: half of the time random bytes, otherwise structured --
+    all NUL (a sparse image), random bytes with a NUL tail / NUL head (padded
+    archives), or a short pattern repeated (CR/LF, ^Z, 0xff ...). Nothing on
+    the path may treat contents specially."""
+    b = tape.blob(size, tag)
+    kind = tape.choose(8, "ckind")
+    if kind < 4 or size == 0:
+        return b
+    if kind == 4:
+        return bytes(size)
+    if kind == 5:
+        k = tape.choose(size + 1, "ztail")
+        return b[:k] + bytes(size - k)
+    if kind == 6:
+        k = tape.choose(size + 1, "zhead")
+        return bytes(k) + b[k:]
+    pat = tape.pick((b"line\r\n", b"\n", b"\r", b"\x1a", b"\xff",
+                     b"\x00\x01", b"PK\x03\x04"), "pat")
+    return (pat * (size // len(pat) + 1))[:size]
+
+
 def make_tree(tape, root):
     os.mkdir(root)
     n = tape.choose(7, "nent")
@@ -147,7 +170,7 @@ def make_tree(tape, root):
         else:
             size = tape.pick((0, 1, 100, 16384, 20000), "fsz")
             with open(p, "wb") as f:
-                f.write(tape.blob(size, i))
+                f.write(content(tape, size, i))
             os.chmod(p, tape.pick((0o644, 0o600, 0o755, 0o444), "mode"))
 
 
@@ -262,7 +285,8 @@ def _run(seed, tape, opts, w):
         extra = ["--text", payload[1]]
     elif payload[0] == "file":
         with open(src, "wb") as f:
-            f.write(tape.blob(payload[1], 1))
+            f.write(content(tape, payload[1], 1) if not fixed
+                    else tape.blob(payload[1], 1))
         extra = [name]
     else:
         make_tree(tape, src)
